@@ -75,6 +75,20 @@ def r1_entity_table(repo):
                       bool(ks) and not bad,
                       "add_%s writes kinds %s; entity literal declares %s" % (x, ks, sorted(kinds)),
                       {"kinds": ks}))
+        # the write happens on every call: after add_x(ns, name, d) the lookup of name in ns answers d.  A guard is only
+        # accepted when it skips the write because the stored entry *is* the declaration being added (identity)
+        cond = []
+        for c in calls_in(f.node):
+            if call_name(c) != "_add_entity":
+                continue
+            for t, p in flat_guards(c):
+                ident = isinstance(t, ast.Compare) and len(t.ops) == 1 and isinstance(t.ops[0], ast.Is) and \
+                    any(isinstance(z, ast.Name) and z.id in f.params[-1:] for z in [t.left] + t.comparators)
+                if not (ident and not p):
+                    cond.append(("" if p else "not ") + src(t))
+        obs.append(Ob("C16-R1", "add_%s:writes-on-every-call" % x, _where(repo, f), not cond,
+                      "add_%s registers the declaration only under %s; after an add the name must resolve to the added "
+                      "declaration whatever was there before" % (x, cond)))
         if x not in removers:
             obs.append(Ob("C16-R1", "add_%s:has-remover" % x, _where(repo, f), False,
                           "no remove_%s for add_%s" % (x, x)))
